@@ -258,7 +258,10 @@ func (x *Exec) ptrTerm(v Val) Term {
 	case KScalar:
 		return v.T
 	case KClosure:
-		return x.uf("fn!"+v.Fn.String(), sInt)
+		// a function value made from a function or closure is never nil
+		t := x.uf("fn!"+v.Fn.String(), sInt)
+		x.decl(t.S+"!nonnil", "(assert (not (= "+t.S+" 0)))")
+		return t
 	case KPtr:
 		p := v.P
 		switch p.Kind {
